@@ -1,4 +1,6 @@
 import OrdModel.Proofs.IndexSchedSeq
+import OrdModel.Proofs.IndexSchedValid
+import OrdModel.Proofs.IndexSchedRender
 /-!
 # C12 — index content does not depend on how indexing was scheduled
 
@@ -68,14 +70,16 @@ theorem c12_schedule_independent_partial (cfg : Cfg) (sched₁ sched₂ : List (
   rw [← hflat] at h2
   exact OutRel.trans_symm (fun _ _ _ ha hb => ⟨ha.1.trans hb.1.symm, ha.2, hb.2⟩) h1 h2
 
-/-- The committed `utxo` table of every schedule has no duplicate keys (so "same `AL.get` for
-every key" is equality of finite maps), and its script index lists exactly the table's entries. -/
+/-- The committed tables of every schedule are finite maps / a finite set (no duplicate `utxo`
+or `seq2sp` keys, no duplicate `script2out` rows — so "same `AL.get` for every key" is equality
+of content), and the script index lists exactly the `utxo` table's entries. -/
 theorem c12_committed_tables_wf (cfg : Cfg) (sched : List (List Block)) (hc : ChainCond sched.flatten)
     (s : Store) (h : runBatches cfg sched {} = .ok s) :
-    (AL.keys s.st.utxo).Nodup ∧
+    TablesWF s.st ∧
     (cfg.indexAddresses = true → ∀ scr op, (scr, op) ∈ s.st.script2out ↔
       ∃ e, AL.get s.st.utxo op = some e ∧ e.script = scr) := by
   have h1 := runBatches_rel cfg sched [] {} {} (SRel.init cfg) rfl hc.chainOK
+  have hw := wf2_runBatches cfg sched {} s h ⟨List.nodup_nil, List.nodup_nil⟩
   rw [h] at h1
   cases hr : runBlocks cfg sched.flatten {} with
   | panic e => rw [hr] at h1; exact absurd h1 (by simp [OutRel])
@@ -83,7 +87,14 @@ theorem c12_committed_tables_wf (cfg : Cfg) (sched : List (List Block)) (hc : Ch
   | ok a =>
     rw [hr] at h1
     simp only [OutRel] at h1
-    exact ⟨h1.1.tinvC.nodup, h1.1.tinvC.rows⟩
+    exact ⟨⟨h1.1.tinvC.nodup, hw.1, hw.2⟩, h1.1.tinvC.rows⟩
+
+/-- C16's chain-validity predicate (consensus rules as far as the indexer can tell: inputs spend
+existing unspent outputs, no null input outside the coinbase, distinct non-zero txids, …) implies
+the conditions C12 is proved under: the theorems hold for "every valid chain". -/
+theorem c12_chainCond_of_valid_chain (chain : List Block) (h : Valid.validChain chain = true) :
+    ChainCond chain :=
+  ChainCond.of_validChain chain h
 
 /-! ## `seq2sp` (SEQUENCE_NUMBER_TO_SATPOINT)
 
@@ -146,6 +157,29 @@ theorem c12_schedule_independent (cfg : Cfg) (sched₁ sched₂ : List (List Blo
   rw [← hflat] at h2
   exact OutRel.trans_symm (fun _ _ _ ha hb => ⟨ha.1.trans hb.1.symm, ha.2, hb.2⟩) h1 h2
 
+/-- The canonical dump (`renderSection`: the sorted rows of every section, what
+`Index::verif_dump` prints) of the committed content is the same for any two schedules. -/
+theorem c12_dumps_equal (cfg : Cfg) (sched₁ sched₂ : List (List Block))
+    (hflat : sched₁.flatten = sched₂.flatten) (hc : ChainCond sched₁.flatten)
+    (hseq : SeqConsistentRun cfg sched₁.flatten {}) :
+    OutRel (fun s₁ s₂ => ∀ name, renderSection cfg s₁.st name = renderSection cfg s₂.st name)
+      (runBatches cfg sched₁ {}) (runBatches cfg sched₂ {}) := by
+  have h := c12_schedule_independent cfg sched₁ sched₂ hflat hc hseq
+  cases h1 : runBatches cfg sched₁ {} with
+  | panic e => rw [h1] at h; cases h2 : runBatches cfg sched₂ {} <;> rw [h2] at h <;> simp_all [OutRel]
+  | err e => rw [h1] at h; cases h2 : runBatches cfg sched₂ {} <;> rw [h2] at h <;> simp_all [OutRel]
+  | ok s₁ =>
+    cases h2 : runBatches cfg sched₂ {} with
+    | panic e => rw [h1, h2] at h; exact absurd h (by simp [OutRel])
+    | err e => rw [h1, h2] at h; exact absurd h (by simp [OutRel])
+    | ok s₂ =>
+      rw [h1, h2] at h
+      simp only [OutRel] at h ⊢
+      intro name
+      exact renderSection_equiv cfg s₁.st s₂.st h.1
+        (c12_committed_tables_wf cfg sched₁ hc s₁ h1).1
+        (c12_committed_tables_wf cfg sched₂ (hflat ▸ hc) s₂ h2).1 name
+
 /-! ## Duplicate txids: schedule independence fails
 
 Blocks 0 and 1 have the same coinbase transaction (txid 7) and block 2 spends `7:0`.  If
@@ -198,6 +232,9 @@ example : ChainCond [[exB0], [exB1, exB2]].flatten ∧
     utxoAt (runBatches dupCfg [[exB0], [exB1, exB2]] {}) ⟨5, 0⟩ =
       utxoAt (runBatches dupCfg [[exB0, exB1], [exB2]] {}) ⟨5, 0⟩ := by
   refine ⟨⟨by decide, by decide, by decide⟩, by decide, by decide, by decide⟩
+
+/-- the example chain is consensus-valid in the sense of C16's predicate -/
+example : Valid.validChain [exB0, exB1, exB2] = true := by decide
 
 /-! An inscription revealed in block 1 (output `3:0`), moved in block 2 (to `5:0`) and spent to
 fees in block 3 (the coinbase pays out less than the subsidy, so it lands on the null outpoint):
